@@ -91,6 +91,8 @@ type Thread struct {
 	waitLock  lockID
 	waitChans []waitCh
 	syncN     int
+	waitTimer bool // blocked in a select that also has a pending timer arm
+	timerDue  bool // the scheduler decided that the pending timer fires
 }
 
 func (t *Thread) clone() *Thread {
